@@ -211,8 +211,15 @@ def run_model(lines, shards=8, timeout=900):
         for line in res[0].split("\n"):
             if line:
                 cid, _, rest = line.partition(" ")
+                rest, _, fl = rest.partition(" #flags ")
                 out[cid] = rest
+                if fl:
+                    MODEL_FLAGS[cid] = tuple(n for n, c in zip(FLAG_NAMES, fl.strip()) if c == "1")
     return out
+
+
+FLAG_NAMES = ("seed_read", "seed_returned", "peek_tainted", "peek_replaced", "peek_error", "key_error")
+MODEL_FLAGS = {}     # case id -> names of the LR flags (Model/LRT.v) raised by the model run
 
 
 def outcome_from_model(text, dumper):
